@@ -8,6 +8,7 @@ import MoreExec.Model.Zipper
 import MoreExec.Model.MapFut
 import MoreExec.Model.Apply
 import MoreExec.Model.LockOrder
+import MoreExec.Model.Stack
 open MoreExec.Gen
 
 namespace Driver
@@ -135,10 +136,62 @@ def parseRole : String → MoreExec.LockOrder.Role
   | "gate" => .gate | "fut" => .fut | "exec" => .exec | "counter" => .counter | "comb" => .comb
   | "registry" => .registry | _ => .cond
 
+namespace StackO
+open MoreExec.Stack
+
+def lst (x : String) : List String := (x.splitOn ",").filter (fun y => y ≠ "" && y ≠ "-")
+
+def int! (s : String) : Int := if s.startsWith "-" then - (Int.ofNat (nat! (s.drop 1).toString)) else Int.ofNat (nat! s)
+
+def parseLayer (w : String) : Option Layer :=
+  match w.splitOn ":" with
+  | ["map", li, fn, ef] =>
+      let f := if fn = "raise" then FnBeh.raises else FnBeh.ident
+      let e := if ef = "none" then ErrBeh.none else if ef = "reraise" then ErrBeh.reraise else if ef = "raise" then ErrBeh.raises
+               else ErrBeh.ret (int! ef)
+      some (.map (nat! li) f e)
+  | ["fmap", li, fn] => some (.flatMap (nat! li) (if fn = "raise" then .raises else .ident))
+  | ["retryx", ma, base] => some (.retry (.exc ⟨nat! ma, 0, 0, 0, (lst base).map nat!⟩))
+  | ["retrys", steps] =>
+      some (.retry (.script ((lst steps).map (fun x => if x = "r" then PolStep.retry else if x = "x" then .raises else .stop))))
+  | ["poll", li, pf] => some (.poll (nat! li) (if pf = "f" then .fails else .yields))
+  | ["thr"] => some .throttle
+  | ["tmo"] => some .timeout
+  | ["cos"] => some .cancelOnShutdown
+  | _ => none
+
+def parseScript (w : String) : Option Int × Nat :=
+  if w.startsWith "e" then (none, nat! (w.drop 1).toString) else (some (int! (w.drop 1).toString), 0)
+
+def showVal : Val → String
+  | .int n => toString n
+  | .polled v => "P(" ++ showVal v ++ ")"
+
+def showTag : Tag → String
+  | .callable a c => s!"callable:{a}:{c}"
+  | .mapfn li => s!"mapfn:{li}"
+  | .errfn li => s!"errfn:{li}"
+  | .pollerr li => s!"pollerr:{li}"
+
+/-- `stack.eval <layer>* | <script entry>+`, layers outermost first -/
+def run (ws : List String) : String :=
+  let ls := ws.takeWhile (· ≠ "|")
+  let sc := (ws.dropWhile (· ≠ "|")).drop 1
+  match ls.mapM parseLayer with
+  | none => "bad-layer"
+  | some layers =>
+      if sc.isEmpty then "bad-script" else
+      let r := eval (sc.map parseScript) layers 0
+      match r.1 with
+      | .ok v => s!"ok {showVal v} {r.2}"
+      | .err t => s!"err {showTag t} {r.2}"
+end StackO
+
 def oracleLine (ws : List String) : String :=
   match ws with
   | ["lockorder.allowed", d1, k1, r1, d2, k2, r2] =>
       toString (MoreExec.LockOrder.allowed ⟨nat! d1, parseKind k1, parseRole r1⟩ ⟨nat! d2, parseKind k2, parseRole r2⟩)
+  | "stack.eval" :: rest => StackO.run rest
   | "k5.fold" :: "or" :: outId :: ids :: rest => boolFold .or outId ids rest
   | "k5.fold" :: "and" :: outId :: ids :: rest => boolFold .and outId ids rest
   | "k5.update" :: "or" :: outId :: ids :: d :: rest => boolUpdate .or outId ids d rest
